@@ -16,6 +16,11 @@ import Rpki.Props.C17
 import Rpki.Props.C02
 import Rpki.Proofs.CrlCodec
 import Rpki.Proofs.CertEncLemmas
+import Rpki.Proofs.CertEncCert
+import Rpki.Proofs.CrlEncLemmas
+import Rpki.Proofs.CmsEncLemmas
+import Rpki.Proofs.IdEncLemmas
+import Rpki.Proofs.SigMsgEncLemmas
 namespace Rpki.Props.C05
 set_option autoImplicit false
 open Rpki.Der
@@ -182,11 +187,13 @@ theorem tbs_cert_reencode (d : CertDer.Decoded) (outerParam : Bool) (signature :
 
 /-- the hypothesis `WF` is what the builders' inputs have: canonical resource chains are read back by the IPv6
 and AS readers, and the names the library derives from keys are complete values for the name reader -/
-theorem wf_parts (cl6 cla : Chain.Claim) (s : Bytes)
+theorem wf_parts (cl4 cl6 cla : Chain.Claim) (s : Bytes)
+    (h4 : CertDer.ClaimCanon IpDer.maxAddr cl4) (s4 : ∀ c, cl4 = .blocks c → ∀ b ∈ c, IpDer.V4Shaped b)
     (h6 : CertDer.ClaimCanon IpDer.maxAddr cl6) (ha : CertDer.ClaimCanon AsDer.maxAs cla) (hp : cla ≠ .missing) :
-    CertEnc.ClaimRead 128 cl6 ∧ CertEnc.AsRead cla ∧
+    CertEnc.ClaimRead 32 cl4 ∧ CertEnc.ClaimRead 128 cl6 ∧ CertEnc.AsRead cla ∧
     CertEnc.NameOk (tlv tagSeq (tlv tagSet (tlv tagSeq (tlv tagOid Consts.oidCommonName ++ tlv CertDer.tagPrintable s)))) :=
-  ⟨CertEnc.claimRead128_of_canon cl6 h6, CertEnc.asRead_of_canon cla ha hp, CertEnc.nameOk_cn s⟩
+  ⟨CertEnc.claimRead32_of_v4 cl4 h4 s4, CertEnc.claimRead128_of_canon cl6 h6, CertEnc.asRead_of_canon cla ha hp,
+   CertEnc.nameOk_cn s⟩
 
 /-! non-vacuity: a CA certificate (repository and manifest URIs, all IPv6 space, inherited AS resources) in the
 profile; its to-be-signed octets are read back -/
@@ -226,5 +233,128 @@ theorem exCert_wf : CertEnc.WF exCert where
 
 example : CertDer.decodeTbs (CertEnc.encodeTbs exCert) true [9] = some (CertEnc.readBack exCert true [9]) :=
   tbs_cert_roundtrip exCert exCert_wf true [9]
+
+/-! ### whole objects: certificates, CRLs, signed objects
+
+`Cert::take_from` first captures the to-be-signed value by *skipping* it (bcder's `capture_one`, the stack
+machine of `Model/Skip.lean`), then parses the captured octets.  `Forest` is the set of octet strings made of
+complete definite-length values; the skip machine accepts every one of them (`Proofs/SkipAccept.lean`), and
+everything the writers produce is one (`Proofs/CertEncCert.lean`). -/
+
+/-- the names the library derives from keys are forests -/
+theorem forest_cn (s : Bytes) :
+    CertDer.Forest (tlv tagSeq (tlv tagSet (tlv tagSeq (tlv tagOid Consts.oidCommonName ++ tlv CertDer.tagPrintable s)))) :=
+  CertEnc.forest_cons1 _ _ (by decide) (by decide) (CertEnc.forest_cons1 _ _ (by decide) (by decide)
+    (CertEnc.forest_cons1 _ _ (by decide) (by decide)
+      (CertEnc.forest_append (CertEnc.forest_prim1 _ _ (by decide) (by decide) (by decide))
+        (CertEnc.forest_prim1 _ _ (by decide) (by decide) (by decide)))))
+
+/-- **`Cert::take_from` reads back what `Cert::encode_ref` writes**, for every certificate in the profile, every
+signature and whatever follows: the skip machine captures exactly the to-be-signed value, the outer algorithm
+identifier and the signature bit string follow, and all fields come back. -/
+theorem cert_roundtrip (d : CertDer.Decoded) (h : CertEnc.WF d) (hi : CertDer.Forest d.issuer) (hs : CertDer.Forest d.subject)
+    (signature rest : Bytes) :
+    CertDer.takeCert (CertEnc.encodeCert d signature ++ rest) = some (CertEnc.readBack d true signature, rest) :=
+  CertEnc.takeCert_encodeCert d h hi hs signature rest
+
+example : CertDer.takeCert (CertEnc.encodeCert exCert [9] ++ [1, 2]) = some (CertEnc.readBack exCert true [9], [1, 2]) :=
+  cert_roundtrip exCert exCert_wf (forest_cn [65]) (forest_cn [66]) [9] [1, 2]
+
+/-- **`TbsCertList::take_from` reads back what `TbsCertList::encode_ref` writes**: issuer, both update times,
+the captured revocation list (any number of entries), authority key identifier and CRL number. -/
+theorem tbs_crl_roundtrip (d : CrlDer.CrlD) (h : CrlEnc.WF d) :
+    CrlDer.decodeTbsCrl (CrlEnc.encodeTbsCrl d) = some (true, { d with tbs := CrlEnc.encodeTbsCrl d, signature := [] }) :=
+  CrlEnc.decodeTbsCrl_encodeTbsCrl d h
+
+/-- **`Crl::take_from` reads back what `Crl::encode_ref` writes**, through the capture of the to-be-signed value -/
+theorem crl_roundtrip (d : CrlDer.CrlD) (h : CrlEnc.WF d) (hi : CertDer.Forest d.issuer) (signature rest : Bytes) :
+    CrlDer.takeCrl (CrlEnc.encodeCrl d signature ++ rest) =
+      some ({ d with tbs := CrlEnc.encodeTbsCrl d, signature := signature }, rest) :=
+  CrlEnc.takeCrl_encodeCrl d h hi signature rest
+
+/-- **`SignedObject::take_from` (strict) reads back what `SignedObject::encode_ref` writes**: content type,
+content, certificate, signer identifier, the signed attributes and what they say, signature.  With
+`cert_roundtrip` for the certificate and `signed_attrs_roundtrip` for the attributes, a signed object built
+by the library from in-profile parts is read back field by field. -/
+theorem sigobj_roundtrip (ct content cb sid attrs md sig : Bytes) (st : X509.Civil) (cert : CertDer.Decoded)
+    (hct : CertDer.oidOk ct = true) (hsid : sid.length = 20)
+    (hp : SigObj.parseAttrs true attrs = some (ct, md, st))
+    (hcert : CertDer.takeCert cb = some (cert, [])) :
+    CmsDer.decodeSigObj (CmsEnc.encodeSigObj ct content cb sid attrs sig) =
+      some { contentType := ct, content := content, cert := cert, sid := sid, attrs := attrs,
+             messageDigest := md, signingTime := st, signature := sig } :=
+  CmsEnc.decodeSigObj_encodeSigObj ct content cb sid attrs md sig st cert hct hsid hp hcert
+
+/-- the two composed: a signed object around a written certificate -/
+theorem sigobj_with_cert_roundtrip (ct content sid attrs md sig csig : Bytes) (st : X509.Civil) (d : CertDer.Decoded)
+    (h : CertEnc.WF d) (hi : CertDer.Forest d.issuer) (hs : CertDer.Forest d.subject)
+    (hct : CertDer.oidOk ct = true) (hsid : sid.length = 20)
+    (hp : SigObj.parseAttrs true attrs = some (ct, md, st)) :
+    CmsDer.decodeSigObj (CmsEnc.encodeSigObj ct content (CertEnc.encodeCert d csig) sid attrs sig) =
+      some { contentType := ct, content := content, cert := CertEnc.readBack d true csig, sid := sid, attrs := attrs,
+             messageDigest := md, signingTime := st, signature := sig } := by
+  apply sigobj_roundtrip ct content _ sid attrs md sig st _ hct hsid hp
+  have := cert_roundtrip d h hi hs csig []
+  rwa [List.append_nil] at this
+
+/-! ### identity certificates and signed protocol messages -/
+
+/-- **`TbsIdCert::from_constructed` reads back what `TbsIdCert::encode_ref` writes**: serial, names, validity,
+key, the optional basic-constraints flag, both key identifiers. -/
+theorem tbs_idcert_roundtrip (d : SigMsgDer.IdCertD) (h : IdEnc.WF d) (sig : Bytes) :
+    SigMsgDer.decodeTbsId (IdEnc.encodeTbsId d) sig = some (IdEnc.readBack d (IdEnc.encodeTbsId d) sig) :=
+  IdEnc.decodeTbsId_encodeTbsId d h sig
+
+/-- **`IdCert::decode` reads back what `IdCert::to_captured` writes** -/
+theorem idcert_roundtrip (d : SigMsgDer.IdCertD) (h : IdEnc.WF d) (hi : CertDer.Forest d.issuer)
+    (hs : CertDer.Forest d.subject) (signature rest : Bytes) :
+    SigMsgDer.decodeIdCert (IdEnc.encodeIdCert d signature ++ rest) =
+      some (IdEnc.readBack d (IdEnc.encodeTbsId d) signature) :=
+  IdEnc.decodeIdCert_encodeIdCert d h hi hs signature rest
+
+/-- the message's own CRL: what is written is read back, and the serial numbers `contains` walks over are the
+ones written (any number of entries) -/
+theorem msg_crl_roundtrip (d : SigMsgDer.MsgCrlD) (h : SigMsgEnc.WFCrl d) (hi : CertDer.Forest d.issuer) (signature : Bytes) :
+    SigMsgDer.msgCrlBody (SigMsgEnc.encodeTbsMsgCrl d ++ CertEnc.sigAlgEnc ++ tlv tagBitString (0 :: signature)) =
+      some { d with innerParam := true, outerParam := true, tbs := SigMsgEnc.encodeTbsMsgCrl d, signature := signature } :=
+  SigMsgEnc.msgCrlBody_enc d h hi signature
+
+theorem msg_crl_serials (es : List Crl.Entry) (h : ∀ e ∈ es, Crl.EntryOk e) :
+    SigMsgDer.msgRevokedSerials (Crl.encodeList es) = some (es.map (·.serial)) :=
+  SigMsgEnc.msgRevokedSerials_encode es h
+
+/-- **`SignedMessage::decode` (strict) reads back what `SignedMessage::encode_ref` writes** around a written identity
+certificate and a written CRL: content, certificate, CRL, signer identifier, signed attributes and digest,
+signature. -/
+theorem sigmsg_roundtrip (content sid attrs md sig csig lsig : Bytes) (st : X509.Civil)
+    (c : SigMsgDer.IdCertD) (hc : IdEnc.WF c) (hci : CertDer.Forest c.issuer) (hcs : CertDer.Forest c.subject)
+    (l : SigMsgDer.MsgCrlD) (hl : SigMsgEnc.WFCrl l) (hli : CertDer.Forest l.issuer) (hsid : sid.length = 20)
+    (hp : SigObj.parseAttrs false attrs = some (Consts.oidProtocolContentType, md, st)) (rest : Bytes) :
+    SigMsgDer.decodeSigMsg (SigMsgEnc.encodeSigMsg content (IdEnc.encodeIdCert c csig) (SigMsgEnc.encodeMsgCrl l lsig) sid attrs sig ++ rest) =
+      some { content := content, cert := IdEnc.readBack c (IdEnc.encodeTbsId c) csig,
+             crl := { l with innerParam := true, outerParam := true, tbs := SigMsgEnc.encodeTbsMsgCrl l, signature := lsig },
+             sid := sid, attrs := attrs, messageDigest := md, signature := sig } :=
+  SigMsgEnc.decodeSigMsg_built content sid attrs md sig csig lsig st c hc hci hcs l hl hli hsid hp rest
+
+/-! non-vacuity: an identity certificate and a CRL with one entry in the profile -/
+def exIdCert : SigMsgDer.IdCertD :=
+  { serial := List.replicate 19 0 ++ [5], issuer := exName 65, subject := exName 66, validity := ⟨0, 0⟩,
+    notBefore := ⟨2020, 1, 1, 0, 0, 0⟩, notAfter := ⟨2051, 12, 31, 23, 59, 59⟩, keyAlg := .rsa, keyUnused := 0,
+    keyBits := [1, 2, 3], basicCa := none, ski := List.replicate 20 7, aki := some (List.replicate 20 8),
+    tbs := [], signature := [] }
+
+theorem exIdCert_wf : IdEnc.WF exIdCert where
+  serial := ⟨by decide, (by intro x hx; simp [exIdCert] at hx; rcases hx with h | h <;> omega), by decide⟩
+  issuer := CertEnc.nameOk_cn [65]
+  subject := CertEnc.nameOk_cn [66]
+  nb := by decide
+  na := by decide
+  key := by decide
+  ski := by decide
+  aki := by intro k h; injection h with h; subst h; decide
+
+example : SigMsgDer.decodeIdCert (IdEnc.encodeIdCert exIdCert [9]) = some (IdEnc.readBack exIdCert (IdEnc.encodeTbsId exIdCert) [9]) := by
+  have := idcert_roundtrip exIdCert exIdCert_wf (forest_cn [65]) (forest_cn [66]) [9] []
+  rwa [List.append_nil] at this
 
 end Rpki.Props.C05
